@@ -27,7 +27,7 @@ def cases(draw, tier):
                 s_["qn"] = draw(st.sampled_from([[[1], [-1]], [[-1], [1]]]))
     terms = draw(gen.hermitian_hamiltonian(spec, max_terms=5))
     nsweep = draw(st.integers(2, 6))
-    full = draw(st.integers(0, 1)) == 0  # equality case: sufficient bond limits, last sweeps without perturbation
+    full = draw(st.integers(0, 4)) <= 1  # equality case: sufficient bond limits, last sweeps without perturbation
     sched = []
     for k in range(nsweep):
         M = 64 if full else draw(st.sampled_from([1, 2, 3, 4, 6, 8, 16, 64]))
@@ -49,7 +49,7 @@ def cases(draw, tier):
     return {"model": spec, "terms": terms, "hnorm": draw(st.sampled_from([0.5, 1.0, 3.0, 8.0])), "dav": dav,
             "q": draw(st.integers(0, 50)), "m0": draw(st.sampled_from([1, 2, 4, 8])), "rng": draw(st.integers(0, 10 ** 6)),
             "sched": sched, "method": "2site" if dav else draw(st.sampled_from(["1site", "2site", "2site"])),
-            "algo": "davidson" if dav else draw(st.sampled_from(["direct", "davidson"])), "nroots": draw(st.sampled_from([1, 1, 1, 2, 3, 4])),
+            "algo": "davidson" if dav else draw(st.sampled_from(["direct", "davidson"])), "nroots": draw(st.sampled_from([1, 1, 1, 2, 2, 3, 4])),
             "omega": draw(st.sampled_from([None, None, None, 0.0, 0.4, -1.3, 100.0])),
             "stacked": draw(st.integers(0, 4)) == 0, "mpo_algo": draw(st.sampled_from(["qr", "Hopcroft-Karp"])),
             "guess_prep": draw(st.lists(st.sampled_from(["ensure_right", "ensure_left", "apply_h", "add_random", "canon_stop", "scale",
@@ -92,7 +92,7 @@ class C08(Prop):
                    "nroots <= sector dimension / 2 (the local problems must have at least nroots solutions)"]
 
     def budget(self, tier):
-        return dict(examples=1920, shards=16) if tier == "quick" else dict(examples=24000, shards=16)
+        return dict(examples=2880, shards=16) if tier == "quick" else dict(examples=32000, shards=16)
 
     def strategy(self, tier):
         return cases(tier)
